@@ -70,6 +70,11 @@ pub fn run_check(id: &str, tier: Tier) -> i32 {
             if parts.iter().all(|p| p.failure.is_none()) {
                 parts.push(run_engine(&EncEngine { big: true }, &ctx, scale(tier, 6_000, 200_000)));
             }
+            if parts.iter().all(|p| p.failure.is_none()) {
+                // the decoder's half of staying in sync: a block that arrives in fragments must leave the same fields and
+                // the same table as the block in one piece
+                parts.push(run_engine(&runner::Reattributed { inner: SplitEngine, from: "C11", to: "C10", label: "decoder-across-fragments" }, &ctx, scale(tier, 60_000, 1_000_000)));
+            }
             assumptions.push("reference decoder (refmodel::hpack) implements RFC 7541 correctly; validated against the third-party fixture stories by `h2v selftest`".into());
             assumptions.push("table-size changes are applied to encoder and decoders at the same history position (what the SETTINGS ACK rule guarantees on a connection)".into());
         }
@@ -101,6 +106,11 @@ pub fn run_check(id: &str, tier: Tier) -> i32 {
             assumptions.push("at most one local table-size change per history (the public API only sets it at the handshake)".into());
         }
         "C01" | "C02" | "C04" | "C06" => {
+            if id == "C01" {
+                // what h2 never produces itself (padding of every length, empty and padding-only frames) comes from the
+                // reference peer: uploads to an h2 server, content checked by position
+                parts.push(run_engine(&FlowEngine, &ctx, scale(tier, 12_000, 200_000)));
+            }
             parts.push(run_engine(&PairEngine { focus: Focus::Coop }, &ctx, scale(tier, 12_000, 300_000)));
             if parts.iter().all(|p| p.failure.is_none()) && id != "C06" {
                 parts.push(run_engine(&PairEngine { focus: Focus::Resets }, &ctx, scale(tier, 8_000, 200_000)));
@@ -139,6 +149,23 @@ pub fn run_check(id: &str, tier: Tier) -> i32 {
             }
             if parts.iter().all(|p| p.failure.is_none()) {
                 parts.push(run_engine(&CatalogueServerEngine, &ctx, scale(tier, 6_000, 200_000)));
+            }
+            // every other scripted-peer engine as well: their generators reach states the soup does not (windows
+            // driven negative, blocked writes, shutdown races), and any panic or busy loop there is C08's
+            if parts.iter().all(|p| p.failure.is_none()) {
+                parts.push(run_engine(&FlowEngine, &ctx, scale(tier, 8_000, 100_000)));
+            }
+            if parts.iter().all(|p| p.failure.is_none()) {
+                parts.push(run_engine(&AcksEngine, &ctx, scale(tier, 6_000, 100_000)));
+            }
+            if parts.iter().all(|p| p.failure.is_none()) {
+                parts.push(run_engine(&crate::eng_raw::CatalogueClientEngine, &ctx, scale(tier, 6_000, 100_000)));
+            }
+            if parts.iter().all(|p| p.failure.is_none()) {
+                parts.push(run_engine(&ShutdownEngine { server: true }, &ctx, scale(tier, 4_000, 100_000)));
+            }
+            if parts.iter().all(|p| p.failure.is_none()) {
+                parts.push(run_engine(&CapEngine, &ctx, scale(tier, 4_000, 100_000)));
             }
             for f in [Focus::Resets, Focus::Faults] {
                 if parts.iter().all(|p| p.failure.is_none()) {
